@@ -1286,6 +1286,13 @@ impl<'a> Exec<'a> {
                 };
                 let res = self.s.server_login_finish(&stt.item, &fi.item);
                 self.check_predict(i, "ServerFinish", &p, &res);
+                // C03 speaks of *every* byte string of the finalization length: such a string
+                // must reach the final step and be answered there, not be turned away by the decoder
+                if let (Predict::Reject { invalid_login: true, .. }, Some(raw), Err(f)) = (&p, &fi.raw, &res) {
+                    if raw.len() == self.s.lens().nh && matches!(&f.stage, Stage::Decode(a) if a == "fin") && !f.is_panic() {
+                        self.violate("server_errkind", i, format!("ServerFinish: a {}-byte finalization ({}) never reached the final step: the decoder refused it with {} instead of the final step answering InvalidLoginError", raw.len(), crate::hexs::abbrev(raw), f.short()));
+                    }
+                }
                 let ev = match res {
                     Ok(k) => {
                         self.stats.server_accepts += 1;
